@@ -23,7 +23,8 @@ SPEC = dict(
     assumptions=["packaging decides validity/equality of PEP 440 versions; canonical spelling is NOT demanded "
                  "(1.0.a0 is acceptable) - only the statement's clauses are asserted"],
     required=["lib_checks", "cli_pep440_lines", "file_occurrences_checked", "tags:alpha", "tags:final", "tags:post",
-              "tags:dev", "zero_padded_cases", "show_pep440_values_checked", "both_placeholder_updates", "grep_with_version_pattern"],
+              "tags:dev", "zero_padded_cases", "show_pep440_values_checked", "both_placeholder_updates", "grep_with_version_pattern",
+              "build_value_zero", "tag_numbered_by_another_part"],
     anchors=[("v2patterns", "_convert_to_pep440"), ("version", "to_pep440"), ("v2patterns", "normalize_pattern")],
 )
 
@@ -75,6 +76,8 @@ def cases(ctx):
         yield {"kind": "file", "seed": ctx.rng.getrandbits(48)}
     for _ in range(ctx.size(300, 6000)):
         yield {"kind": "both", "seed": ctx.rng.getrandbits(48)}
+    for _ in range(ctx.size(1500, 40000)):
+        yield {"kind": "lib2", "seed": ctx.rng.getrandbits(48)}
 
 
 LONG_TAG = re.compile(r"alpha|beta|preview|final|pre|rev")
@@ -258,6 +261,36 @@ def run_both(ctx, case, R, mods, tdy):
         harness.rm_dir(d)
 
 
+# lib2: shapes outside gen.gen_pattern - the tag numbered by a part other than NUM (its own auto-incrementing
+# number), and a BUILD value of zero
+OWN_NUMBER_CORES = ["MAJOR.MINOR.PATCH", "vMAJOR.MINOR.PATCH", "YYYY.0M", "vYYYY.MM.DD", "YYYY.0M.0D", "MAJOR.MINOR", "vYYYY.MM.MINOR"]
+OWN_NUMBER_TAILS = ["[-TAG[INC1]]", "[-TAGINC1]", "[PYTAGINC0]", "[.TAGINC0]", "[.TAGBUILD]", "[-TAG[INC0]]", "[PYTAG[INC1]]",
+                    "[-TAGBLD]", "[.PYTAGINC1]"]
+ZERO_BUILD_PATTERNS = ["MAJOR.MINOR.BUILD", "vYYYY0M.BUILD[-TAG]", "YYYY.BUILD[-TAGNUM]", "vYYYY.0M.BUILD", "MAJOR.BUILD[PYTAGNUM]",
+                       "YYYY.MM.BLD", "vMAJOR.MINOR.PATCH.BUILD"]
+
+
+def run_lib2(ctx, case, R, mods, tdy):
+    zero_build = R.random() < 0.35
+    p = R.choice(ZERO_BUILD_PATTERNS) if zero_build else R.choice(OWN_NUMBER_CORES) + R.choice(OWN_NUMBER_TAILS)
+    ast = ref.parse_pattern(p)
+    names = list(ref.parts_in(ast))
+    _d, st0 = gen.gen_state(R, names)
+    if zero_build:
+        st0["bid"] = R.choice(["0", "0000", "00"])
+    rs = gen.reachable(ast, st0, tdy)
+    if rs is None or ref.n_full_parses(ast, rs[0]) != 1 or projects._week53(names, rs[1]):
+        raise harness.Skip("unreachable-state")
+    v_text, st = rs
+    if ref.render(ast, st) != v_text:
+        # not a stable version text of this pattern (an always-written INC1 directly after the digits of the release:
+        # `{version}` itself re-renders differently) - outside this property
+        raise harness.Skip("version-text-not-a-fixpoint")
+    check_one(ctx, mods, p, v_text, {"kind": "lib1", "p": p, "state": st}, level="lib2")
+    ctx.counters["build_value_zero" if zero_build else "tag_numbered_by_another_part"] += 1
+    ctx.evaluated((p, st["tag"], "lib2"), sample={"pattern": p, "version": v_text})
+
+
 def run_case(ctx, case):
     mods = updates.bvmods()
     tdy = updates.today()
@@ -274,6 +307,8 @@ def run_case(ctx, case):
         return run_show(ctx, case, R, mods, tdy)
     if case["kind"] == "both":
         return run_both(ctx, case, R, mods, tdy)
+    if case["kind"] == "lib2":
+        return run_lib2(ctx, case, R, mods, tdy)
     if case["kind"] == "lib":
         p = gen.gen_pattern(R, decorate=False, pep_bias=True)
         ast = ref.parse_pattern(p)
